@@ -6,7 +6,7 @@
    table position and its data at its offset.  That the planned ranges of one
    save() never overlap is Properties_C04 (objects without segments) and the
    correspondence run (objects with segments): partial at whole-object level. *)
-From ElfioV Require Import Bytes Mem Stream SectionData Strings Elfio Table Loader Layout Writer Codec_proofs Ostream_proofs Layout_proofs Writer_proofs.
+From ElfioV Require Import Bytes Mem Stream SectionData Strings Elfio Table Loader Layout Writer Codec_proofs Ostream_proofs Layout_proofs Writer_proofs Segment_proofs Oneseg_proofs Oneseg_writer.
 Local Open Scope N_scope.
 
 Theorem C03_header_record_decodes :
@@ -90,6 +90,53 @@ Theorem C03_noseg_saved_file :
        sliceN file (sh_offset s) (sh_size s) = firstnN b (sh_size s)).
 Proof. exact noseg_file_contents. Qed.
 Print Assumptions C03_noseg_saved_file.
+
+(* Objects with one segment of automatically addressed members (plus any sections outside it), end to
+   end from the object as built to the bytes of the file: the layout step succeeds; the writes of save()
+   — ELF header, the program header record, every section header record, every section's data — are
+   pairwise disjoint; so the saved file holds the ELF header at 0, the program header record at e_phoff,
+   every section's header record at e_shoff + e_shentsize * index and every non-empty section's data at
+   its offset, each verbatim (hence, by the three record theorems above, decoding to what was put in). *)
+Theorem C03_one_segment_saved_file :
+  forall el h0 g bound ms,
+    let idxs := g_sections g in
+    let align := if 0 <? p_align g then p_align g else 1 in
+    let secs := el_secs el in
+    let pos0 := e_ehsize h0 + e_phentsize h0 in
+    el_hdr el = Some h0 -> el_segs el = [g] -> lenN secs < 2 ^ 16 ->
+    lenN idxs < 2 ^ 16 -> idxs <> [] -> g_offset_set g = false -> p_type g <> PT_PHDR -> NoDup idxs ->
+    Forall2 (fun i s => nth_optN secs i = Some s) idxs ms ->
+    Forall auto_member ms -> Forall (fun s => sh_addralign s <= p_align g) ms ->
+    bound <= 2 ^ 63 -> Forall (fun s => bound <= 2 ^ xw (s_cls s)) secs -> bound <= 2 ^ xw (g_cls g) ->
+    bound <= 2 ^ xw (e_cls h0) -> p_align g < 2 ^ 63 ->
+    p_vaddr g + pos0 + align + mbudget ms + budget secs + 16 + e_shentsize h0 * lenN secs < bound ->
+    indexed_from 0 secs ->
+    (forall s, In s secs -> s_index s = 0 -> csize s = 0) ->
+    (forall s b, In s secs -> s_data s = Some b -> sh_size s <= lenN b) ->
+    lenN (e_ident h0) = 16 -> e_ehsize h0 = ehdr_size (e_cls h0) ->
+    (forall s, In s secs -> shdr_size (s_cls s) <= e_shentsize h0) ->
+    phdr_size (g_cls g) <= e_phentsize h0 -> g_index g = 0 ->
+    exists el' h' g' seg_start pos1 pos2,
+      layout el = Ok (el', true) /\ el_hdr el' = Some h' /\ el_segs el' = [g'] /\
+      Forall2 relaid secs (el_secs el') /\
+      e_phoff h' = e_ehsize h0 /\ e_phnum h' = 1 /\ e_shnum h' = lenN secs /\
+      e_shoff h' = pos2 + (16 - pos2 mod 16) /\
+      pos0 <= seg_start /\ seg_start mod align = p_vaddr g mod align /\
+      p_offset g' = seg_start /\ p_vaddr g' = p_vaddr g /\ p_filesz g' = pos1 - seg_start /\ p_filesz g' <= p_memsz g' /\
+      mchain g seg_start (el_secs el') idxs seg_start pos1 /\
+      chain (free_list [g'] 0 (el_secs el')) pos1 pos2 /\
+      let plan := oneseg_plan h' (el_secs el') (segments_plan (e_enc h') h' [g']) in
+      all_disjoint plan /\
+      (plan_small 0 plan ->
+       let file := os_bytes (exec_plan (new_ostream None) plan) in
+       sliceN file 0 (ehdr_size (e_cls h')) = ehdr_bytes h' /\
+       sliceN file (e_phoff h') (phdr_size (g_cls g')) = phdr_bytes (e_enc h') g' /\
+       (forall s, In s (el_secs el') ->
+          sliceN file (e_shoff h' + e_shentsize h' * s_index s) (shdr_size (s_cls s)) = shdr_bytes (e_enc h') s) /\
+       (forall s b, In s (el_secs el') -> csize s <> 0 -> s_data s = Some b ->
+          sliceN file (sh_offset s) (sh_size s) = firstnN b (sh_size s))).
+Proof. exact oneseg_saved_file. Qed.
+Print Assumptions C03_one_segment_saved_file.
 
 Theorem C03_sections_plan_is_the_plan :
   forall junk enc h st todo done acc,
